@@ -135,6 +135,7 @@ func zzH_CLIb() {
 	case 2:
 		conn.SetPipelining(true)
 	}
+	var keptBufs, keptSnaps [][]byte
 	for i := 0; i < K; i++ {
 		var args []byte
 		empty := vChoose("empty-reply", 2) == 1
@@ -154,6 +155,12 @@ func zzH_CLIb() {
 				ctx.buf = vBufferN("cbuf", 8)
 			}
 			err = conn.CallWithContext(ctx, "S.Echo", &args, &reply)
+			if ctx.buf != nil {
+				// the caller's buffer is the caller's again once the call has returned
+				full := ctx.buf[:cap(ctx.buf)]
+				keptBufs = append(keptBufs, full)
+				keptSnaps = append(keptSnaps, append([]byte(nil), full...))
+			}
 		case 2:
 			err = conn.Ping()
 			vAssert(err == nil, "no-error")
@@ -165,6 +172,9 @@ func zzH_CLIb() {
 		} else {
 			vAssert(vEqBytes(reply, zzReplyFor(args)), "reply-of-own-args")
 		}
+	}
+	for i := range keptBufs {
+		vAssert(vEqBytes(keptBufs[i], keptSnaps[i]), "context-buffer-untouched-by-later-calls")
 	}
 	m.auto = false
 	m.fail(io.EOF)
